@@ -422,6 +422,8 @@ func showLinesBlock(b vh.Block) string {
 }
 
 func evalCase(kind string, args []string) (res string) {
+	// every case starts from the package-level state the library has at start-up
+	vh.GemResetZero()
 	defer func() {
 		if r := recover(); r != nil {
 			res = "X~panic"
@@ -470,6 +472,23 @@ func evalCase(kind string, args []string) (res string) {
 		}
 		s, e := vh.RangeToIndexes(a, b, c)
 		return fmt.Sprintf("%d,%d", s, e)
+	case kind == "hist" && len(args) == 1:
+		return evalHist(args[0])
+	case kind == "progz" && len(args) == 1:
+		var pool []entry
+		var flags []string
+		for _, st := range strings.Split(args[0], ";") {
+			en, _ := evalStep(pool, st)
+			pool = append(pool, en)
+			if vh.GemZeroFilled() {
+				flags = append(flags, "1")
+			} else {
+				flags = append(flags, "0")
+			}
+		}
+		return strings.Join(flags, ",")
+	case kind == "rel" && len(args) == 2:
+		return evalProg(args[1], false)
 	case kind == "prog" && len(args) == 1:
 		return evalProg(args[0], false)
 	case kind == "pool" && len(args) == 1:
